@@ -140,6 +140,10 @@ def eq(
 ) -> bool:
     x1, y1, z1 = p1
     x2, y2, z2 = p2
+    # Every triple with z == 0 represents infinity (double() can even return
+    # (0, 0, 0)); cross-multiplication alone would equate it with any point.
+    if is_inf(p1) or is_inf(p2):
+        return is_inf(p1) and is_inf(p2)
     return x1 * z2 == x2 * z1 and y1 * z2 == y2 * z1
 
 
